@@ -24,8 +24,13 @@ Record case := mk { arity : N; fam : N; input : list Z; observed : list Z }.
 Definition fam4 (n : N) (i : Z) (l : list Z) : list Z :=
   if Z.eqb i ((Z.of_N n + 1) / 2) then l ++ [i; Z.of_nat (length (spec_pipe n fam2 [100]))] else l ++ [i].
 
+(* family 5: float64 values, f_i x = x/2 + i, exact on dyadic rationals: the model computes on x * 2^24; the
+   input is given in quarters *)
+Definition fam5 (i : Z) (y : Z) : Z := y / 2 + i * 16777216.
+
 Definition required (c : case) : option (list Z) :=
   match fam c with
+  | 5%N => match input c with [q] => Some [spec_pipe (arity c) fam5 (q * 4194304)] | _ => None end
   | 2%N | 3%N => Some (spec_pipe (arity c) fam2 (input c))
   | 4%N => Some (spec_pipe (arity c) (fam4 (arity c)) (input c))
   | f => match input c with [x] => Some [spec_pipe (arity c) (fam01 f) x] | _ => None end
